@@ -1119,6 +1119,13 @@ class Engine:
                 return za / zb if op == "Div" else za % zb
             if op in ("Lt", "Le", "Gt", "Ge", "Eq", "Ne"):
                 return {"Lt": za < zb, "Le": za <= zb, "Gt": za > zb, "Ge": za >= zb, "Eq": za == zb, "Ne": za != zb}[op]
+            if op in ("BitXor", "BitAnd", "BitOr", "Shl", "Shr"):
+                # bit operations on symbolic unsigned 64-bit integers: through 64-bit bit-vectors
+                if dest_ty not in ("u64", "usize", ""):
+                    raise Unmodelled("symbolic %s on %s" % (op, dest_ty))
+                ba, bb = z3.Int2BV(za, 64), z3.Int2BV(zb, 64)
+                r = {"BitXor": ba ^ bb, "BitAnd": ba & bb, "BitOr": ba | bb, "Shl": ba << bb, "Shr": z3.LShR(ba, bb)}[op]
+                return z3.BV2Int(r, is_signed=False)
         if isinstance(a, Enum) and isinstance(b, Enum) and op in ("Eq", "Ne"):
             same = (a.ty, a.variant) == (b.ty, b.variant)
             return same if op == "Eq" else not same
@@ -1189,6 +1196,47 @@ class Engine:
         frame = Frame(fn, args)
         return self.run_frame(frame, 0)
 
+    def _complete_captures(self, frame, blk, st, clo):
+        """rustc prints a closure aggregate's captures by *variable name*; two disjoint field captures of `self`
+        (`self.target`, `self.current_state`) are printed as one `self: ..` entry.  When the closure body reads more capture
+        slots than the aggregate shows, the missing operands are the locals assigned just before the aggregate in the same
+        block that nothing else in the function uses."""
+        name = self.closure_index.get(clo.text)
+        if name is None:
+            return clo
+        body = self.dump.get(name)
+        idxs = [int(m) for m in re.findall(r"\(\*?_1\)?\.(\d+):", body.text)] + [int(m) for m in re.findall(r"\(\(\*_1\)\.(\d+):", body.text)]
+        need = (max(idxs) + 1) if idxs else 0
+        if need <= len(clo.fields):
+            return clo
+        used_elsewhere = frame.fn.text
+        cands = []
+        for prev in blk.stmts:
+            if prev is st:
+                break
+            pl = prev.place
+            if pl.proj:
+                continue
+            tok = "_%d" % pl.local
+            # occurrences of the local as a whole token
+            n_occ = len(re.findall(r"(?<![\w])%s(?![\w])" % re.escape(tok), used_elsewhere))
+            n_decl = len(re.findall(r"let (?:mut )?%s:" % re.escape(tok), used_elsewhere))
+            if n_occ - n_decl == 1:  # only its own assignment
+                cands.append(pl.local)
+        have = set()
+        vals = list(clo.fields)
+        names = list(clo.names)
+        for loc in cands:
+            if len(vals) >= need:
+                break
+            if loc in frame.locals:
+                vals.append(frame.locals[loc])
+                names.append("capture%d" % len(vals))
+        del have
+        if len(vals) < need:
+            raise Unmodelled("closure %s reads %d captures but the aggregate shows %d" % (clo.text[:40], need, len(clo.fields)))
+        return Closure(clo.text, names, vals)
+
     def call_closure(self, clo, args):
         """Invoke a closure value with positional args (models of map/for_each/inplace … use this)."""
         if isinstance(clo, Ref):
@@ -1233,6 +1281,8 @@ class Engine:
                     raise BoundHit("step budget exhausted in " + fn.name)
                 dty = self.local_type(frame, st.place)
                 val = self.rvalue(frame, st.rvalue, dty)
+                if isinstance(val, Closure):
+                    val = self._complete_captures(frame, blk, st, val)
                 self.write(frame, st.place, val)
             t = blk.term
             if t is None:
